@@ -99,10 +99,11 @@ def doublequoteString (s : Str) : Except PyExc Str :=
 
 /-! ### renderer/dbml/default/utils.py -/
 
-/-- `prepare_text_for_dbml`: `re.sub(r"('''|')", r'\\\1', text)`. -/
+/-- `prepare_text_for_dbml`: `re.sub(r"('''|'|\\\\)", r'\\\1', text)`. -/
 def prepareTextForDbml : Str → Str
   | '\'' :: '\'' :: '\'' :: r => '\\' :: '\'' :: '\'' :: '\'' :: prepareTextForDbml r
   | '\'' :: r => '\\' :: '\'' :: prepareTextForDbml r
+  | '\\' :: r => '\\' :: '\\' :: prepareTextForDbml r
   | c :: r => c :: prepareTextForDbml r
   | [] => []
 
